@@ -2379,6 +2379,20 @@ def check_C16(tier: str, seed: int) -> int:
         cmd_tail = ["--level", "15", "--max-frames", "3", "--max-layers", "5"]
         thr = {prof: vplib.run_sharded([vplib.impl_driver(prof), "threads"] + cmd_tail, paths, w.dir, "thr_" + prof, shards=4, timeout=2400,
                                        mem_kb=4000000) for prof in ("release", "dev")}
+        # results must not depend on what was loaded before on the same thread: every input observed (a) on a thread of its own,
+        # (b) in list order and (c) in reverse order on one thread per shard (4 shards, so long sequences)
+        iso = vplib.impl_observe("release", paths, w.dir, 15, max_frames=3, max_layers=5, fresh_threads=True, tag="iso")
+        fwd = vplib.impl_observe("release", paths, w.dir, 15, max_frames=3, max_layers=5, shards=4, tag="fwd")
+        rev_paths = list(reversed(paths))
+        rev = list(reversed(vplib.impl_observe("release", rev_paths, w.dir, 15, max_frames=3, max_layers=5, shards=4, tag="rev")))
+        for i, (p, desc) in enumerate(items):
+            for nm, other in (("in list order", fwd), ("in reverse order", rev)):
+                a, b = iso[i], other[i]
+                if a is None or b is None or a[0] != b[0]:
+                    direct_fail.append({"what": "the observation of an input depends on the inputs loaded before it on the same thread (%s vs isolated)" % nm,
+                                        "input": desc, "isolated": a[0][:2] if a else None, "sequence": b[0][:2] if b else None,
+                                        "_data": open(p, "rb").read()})
+                    break
         # (the model needs minutes for 40 tiles of 96 x 96 pixels: that input is compared across repetitions / threads / builds only)
         with_model = [i for i, (_p, d) in enumerate(items) if "cold-start" not in d]
         with_model_set = set(with_model)
